@@ -125,4 +125,96 @@ theorem c10_partial (c : Run.Case) (pieces : List (List Nat)) (hc : 0 < c.chunk)
           simp only [leave, hal, ht, Bool.false_eq_true, if_false, hnext, hs1.rem, beq_self_eq_true, Bool.and_true, hbt,
             if_true]
 
+/-! ## the finding: the negation on a concrete input -/
+
+/-- bash, READ_CHUNK_SIZE 3; the command prints "x" and exits with status 5; the body waits until
+    everything has arrived, calls `expect("x")` and then `terminate()` -/
+def splitCase : Run.Case :=
+  { ash := false, chunk := 3, pre := [[104]], args := [], steps := [.print [120], .exit 5],
+    next := { op := .exec, pre := [[104]], args := [], out := [110, 10], status := 0 },
+    ops := [.wait, .expect [.lit [120]] (some 1500), .terminate] }
+
+/-- the first delivery of `expect` is "xTB": three bytes, two of them the start of the prompt -/
+def splitPieces : List (List Nat) := [[3], [], [3], [3, 3, 3, 3, 3, 3, 3]]
+
+/-- `expect` returns `after = "TB"` (prompt text reaches the caller) and `terminate()` waits for
+    ever: the model reproduces what the real code does on this input -/
+theorem split_behaviour :
+    (Run.run splitCase splitPieces).ops.map (·.res) = [.unit, .expect 0 [] ['x'] ['T', 'B'], .err .hang] := by
+  decide +kernel
+
+/-- **the full statement is false**: a well-formed scenario and a fragmentation for which the
+    model — and the implementation — violates the specification -/
+theorem split_witness :
+    0 < splitCase.chunk ∧ Spec.C10 splitCase (Run.run splitCase splitPieces) = false
+      ∧ splits splitCase (Run.run splitCase splitPieces) = true := by
+  decide +kernel
+
+theorem c10_full_is_false : ¬ ∀ (c : Run.Case) (pieces : List (List Nat)), 0 < c.chunk → Spec.C10 c (Run.run c pieces) = true := by
+  intro h
+  have := h splitCase splitPieces split_witness.1
+  rw [split_witness.2.1] at this
+  exact absurd this (by simp)
+
+/-- with one more read between the two calls the death string (which keeps history) notices the
+    end, and `terminate()` returns the real status: only the leaked prompt bytes remain wrong -/
+example :
+    ((Run.run { splitCase with ops := [.wait, .expect [.lit [120]] (some 1500), .rut (some 50), .terminate] }
+        [[3], [], [3], [3, 3, 3, 3, 3, 3, 3], [3, 3, 3, 3, 3, 3, 3, 3, 3, 3, 3, 3]]).ops.map (·.res))
+      = [.unit, .expect 0 [] ['x'] ['T', 'B'], .err .ended, .term 5 []] := by
+  decide +kernel
+
+/-! ## non-vacuity -/
+
+/-- the scenario is inside the domain of the property from beginning to end -/
+def inDomain (c : Run.Case) (o : Run.Obs) : Bool :=
+  !forbidden (blacklist c) (lineOf c ++ [Tty.CR])
+    && promptOk (prompt c) (start (prompt c) c.steps).1 (start (prompt c) c.steps).2.status
+    && (match Ref.walk (prompt c) (blacklist c) c.ops o.ops
+          { rem := (start (prompt c) c.steps).2, pend := (start (prompt c) c.steps).1 } with
+        | .ok _ => true
+        | _ => false)
+
+/-- prints "hello\n", reads a line, prints "got\n", exits with 3; the body reads what is there,
+    types "abc", terminates, then uses the machine's channel and the proxy once more -/
+def demoCase : Run.Case :=
+  { ash := true, chunk := 7, pre := [[104]], args := [[97, 32, 98]],
+    steps := [.print [104, 101, 108, 108, 111, 10], .readLine, .sleep 3, .print [103, 111, 116, 10], .exit 3],
+    next := { op := .exec, pre := [[104]], args := [[97]], out := [111, 117, 116, 10], status := 2 },
+    ops := [.rut (some 200), .sendline [97, 98, 99] true, .terminate, .probe 0, .rut (some 100)] }
+
+/-- the hypotheses of `c10_partial` are satisfiable by a scenario that stays inside the domain,
+    interacts, and whose observation is the expected one -/
+example :
+    0 < demoCase.chunk
+    ∧ splits demoCase (Run.run demoCase [[2, 1], [3, 4], [1, 1, 1, 2]]) = false
+    ∧ inDomain demoCase (Run.run demoCase [[2, 1], [3, 4], [1, 1, 1, 2]]) = true
+    ∧ Spec.C10 demoCase (Run.run demoCase [[2, 1], [3, 4], [1, 1, 1, 2]]) = true
+    ∧ (Run.run demoCase [[2, 1], [3, 4], [1, 1, 1, 2]]).ops.map (·.res)
+        = [.text "hello\n".toList, .unit, .term 3 "got\n".toList, .err .borrowed, .err .ended]
+    ∧ (Run.run demoCase [[2, 1], [3, 4], [1, 1, 1, 2]]).exit = .none
+    ∧ (Run.run demoCase [[2, 1], [3, 4], [1, 1, 1, 2]]).lines = some [some [97, 98, 99]] := by
+  decide +kernel
+
+/-- an early exit: the command ends at once; the read raises, later calls raise, `terminate0`
+    raises CommandFailure for status 7, leaving is fine, the next command is exact -/
+def earlyCase : Run.Case :=
+  { demoCase with steps := [.print [98, 121, 101], .exit 7],
+                  ops := [.rut (some 50), .sendline [122] false, .terminate0] }
+
+example :
+    inDomain earlyCase (Run.run earlyCase []) = true ∧ Spec.C10 earlyCase (Run.run earlyCase []) = true
+    ∧ (Run.run earlyCase []).ops.map (·.res) = [.err .ended, .err .ended, .err .failure]
+    ∧ (Run.run earlyCase []).exit = .none
+    ∧ ((Run.run earlyCase []).next.map (·.val) == some (.rc 2 "out\n".toList)) = true := by
+  decide +kernel
+
+/-- leaving the block while the command runs: RuntimeError; a body exception propagates -/
+example :
+    (Run.run { demoCase with ops := [.rut (some 50)] } []).exit = .runtime
+    ∧ (Run.run { demoCase with ops := [.rut (some 50), .raise, .terminate] } []).exit = .body
+    ∧ Spec.C10 { demoCase with ops := [.rut (some 50), .raise, .terminate] }
+        (Run.run { demoCase with ops := [.rut (some 50), .raise, .terminate] } []) = true := by
+  decide +kernel
+
 end C10
